@@ -387,8 +387,6 @@ Proof using Hname Hdt Hdims Hlen Hbound Hdense.
   cbn [final_fheap MF.h_root]. unfold BTH_ADDR, LEAF_ADDR in B2. blia.
 Qed.
 
-(* an attribute as Dataset.Attributes lists it: name and value bytes *)
-Definition listed (a : dattr) : attr := (dattr_name a, dattr_data a).
 
 Lemma dense_objs_stage : forall ps, (forall p, In p ps -> In p (dense_pairs attrs)) ->
   run0 f (p_dense_objs SB' (map (fun p => firstn 7 (snd p)) ps) DB 2 3) = Ok (map (fun p => listed (fst p)) ps).
